@@ -7,17 +7,17 @@ fn verif_top<'i>(tokens: Vec<LexToken<'i>>, tokens_raw: Vec<LexToken<'i>>, src: 
     requires forall|i: int| 0 <= i < tokens@.len() ==> is_tok(#[trigger] tokens@[i].kind),
     ensures p.tokens@ == tokens@, p.tokens_raw@ == tokens_raw@, p.src@ == src@,
         p.pos == tokens@.len(), n_adv(p.events@) == tokens@.len(),
-        nested(p.events@), depth(p.events@) == 0,
-        p.events@.len() >= 2, p.events@[0] is Open, p.events@.last() is Close,
+        nested(p.events@), rooted(p.events@), depth(p.events@) == 0,
+        p.events@.len() >= 2, p.events@[0] == (Event::Open { kind: SyntaxKind::SOURCE_FILE }), p.events@.last() is Close,
 {
     let mut p = @PARSER_LITERAL@;
     proof {
-        reveal(n_adv); reveal(depth); reveal(nested);
+        reveal(n_adv); reveal(depth); reveal(nested); reveal(rooted);
         assert(p.events@.len() == 0);
         assert forall|j: int| 0 <= j <= p.events@.len() implies depth(#[trigger] p.events@.take(j)) >= 0 by {
             assert(p.events@.take(j) =~= p.events@);
         }
-        assert(p.wf());
+        assert(p.wf0());
     }
     module(&mut p);
     p
